@@ -425,6 +425,41 @@ func checkC13(c *vlib.Ctx) (string, string) {
 			return c13Case{Pattern: s, Valid: ref.PatternVerdict(s) == ref.PatValid, How: "small scope"}
 		})
 	})
+	// every byte value inserted at, and substituted into, every position of a few patterns (lookup tables and byte
+	// classes have 256 entries; the small scope above only reaches 14 of them)
+	var byteCases int64
+	for _, base := range []string{"https://example.com:8080", "a+b-c.d://*.a-b.c1.d:*", "http://127.0.0.1:9", "http://[::1]:90", "https://*.example.com", "ab://x"} {
+		for pos := 0; pos <= len(base); pos++ {
+			for b := 0; b < 256; b++ {
+				for _, s := range []string{base[:pos] + string([]byte{byte(b)}) + base[pos:], base[:pos] + string([]byte{byte(b)}) + base[min(pos+1, len(base)):]} {
+					byteCases++
+					switch ref.PatternVerdict(s) {
+					case ref.PatValid:
+						ck.Try(c13Case{Pattern: s, Valid: true, How: fmt.Sprintf("byte 0x%02x at position %d of %q, reference recogniser says valid", b, pos, base)})
+					case ref.PatInvalid:
+						ck.Try(c13Case{Pattern: s, How: fmt.Sprintf("byte 0x%02x at position %d of %q, reference recogniser says invalid", b, pos, base)})
+					default:
+						c.Evaluations.Add(1)
+						func() {
+							defer func() {
+								if r := recover(); r != nil {
+									ck.Report(c13Case{Pattern: s, How: "not judged"}, vlib.Failf("panic on %q: %v", s, r))
+								}
+							}()
+							_, e1 := cors.NewMiddleware(cors.Config{Origins: []string{s}, ExtraConfig: cors.ExtraConfig{DangerouslyTolerateSubdomainsOfPublicSuffixes: true}})
+							_, e2 := origins.ParsePattern(s)
+							if (e1 == nil) != (e2 == nil) {
+								ck.Report(c13Case{Pattern: s, How: "not judged"}, vlib.Failf("NewMiddleware and ParsePattern disagree on %q", s))
+							}
+						}()
+					}
+				}
+			}
+		}
+	}
+	c.States.Add(byteCases)
+	c.Transitions.Add(byteCases)
+	c.Set("single_byte_insertions_and_substitutions", byteCases)
 	c.Set("small_scope_verdicts", map[string]int64{"not_judged": judged[0].Load(), "invalid": judged[1].Load(), "valid": judged[2].Load()})
 	c.States.Add(int64(len(prefixes)) * w.Count())
 	c.Transitions.Add(int64(len(prefixes)) * w.Count())
